@@ -532,4 +532,47 @@ example :
       = some [(false, true, 1), (false, true, 1), (false, true, 2), (false, true, 1), (true, true, 1)] := by
   decide +kernel
 
+/-! ### (8) `find_used_blobs`: the used keys hold the content of EVERY file node, whatever size the node records -/
+
+/-- For every list of snapshot roots, everything the tree streamer yields, every streamed tree, every FILE node of it — with ANY
+recorded `meta.size`, in particular 0 (stdin / command snapshots, `/proc`-like files, files that grew after `stat`) — and every
+id of its content list: the data key of that id is among the used keys.  (With `Reads.used` ⇒ `prune_preserves_readable`: the
+blob survives every prune.) -/
+theorem used_holds_all_file_content (snapTrees : List Nat) (streamed : List (Nat × List TNode))
+    (t : Nat) (nodes : List TNode) (n : TNode) (cs : List Nat) (c : Nat)
+    (ht : (t, nodes) ∈ streamed) (hn : n ∈ nodes) (hf : n.type = .file) (hc : n.content = some cs) (hcs : c ∈ cs) :
+    (BlobType.data, c) ∈ findUsed snapTrees streamed := by
+  unfold findUsed
+  refine List.mem_append_right _ (List.mem_flatMap.mpr ⟨(t, nodes), ht, List.mem_flatMap.mpr ⟨n, hn, ?_⟩⟩)
+  simp only [nodeUsed, hf, hc, Option.getD_some]
+  exact List.mem_map.mpr ⟨c, hcs, rfl⟩
+
+/-- the used keys do not depend on the recorded sizes at all: rewriting `meta.size` of every node in any way gives the same keys. -/
+theorem used_ignores_recorded_size (f : TNode → Nat) (snapTrees : List Nat) (streamed : List (Nat × List TNode)) :
+    findUsed snapTrees (streamed.map (fun x => (x.1, x.2.map (fun n => { n with size := f n })))) = findUsed snapTrees streamed := by
+  unfold findUsed
+  congr 1
+  simp only [List.flatMap_map]
+  rfl
+
+/-- the root tree of every snapshot and the subtree of every streamed directory node are used tree keys. -/
+theorem used_holds_roots_and_dir_subtrees (snapTrees : List Nat) (streamed : List (Nat × List TNode)) :
+    (∀ r ∈ snapTrees, (BlobType.tree, r) ∈ findUsed snapTrees streamed) ∧
+    (∀ t nodes n u, (t, nodes) ∈ streamed → n ∈ nodes → n.type = .dir → n.subtree = some u →
+      (BlobType.tree, u) ∈ findUsed snapTrees streamed) := by
+  unfold findUsed
+  refine ⟨fun r hr => List.mem_append_left _ (List.mem_map.mpr ⟨r, hr, rfl⟩), ?_⟩
+  intro t nodes n u ht hn hd hs
+  refine List.mem_append_right _ (List.mem_flatMap.mpr ⟨(t, nodes), ht, List.mem_flatMap.mpr ⟨n, hn, ?_⟩⟩)
+  simp [nodeUsed, hd, hs]
+
+/-- Witness (seeded change C02-8, replayed on the real code by every `hist` case — the sources record size 0 / a stale size for
+4 of 6 contents): a command snapshot — root tree 1 with the file node `test`, recorded size 0, content [7].  The code's
+`findUsed` holds the data key 7; with the guard `NodeType::File if node.meta.size > 0` it is lost, so prune would treat the
+pack of blob 7 as unused. -/
+theorem size_guard_loses_stdin_content :
+    let streamed : List (Nat × List TNode) := [(1, [{ type := .file, size := 0, content := some [7] }])]
+    (BlobType.data, 7) ∈ findUsed [1] streamed ∧ (BlobType.data, 7) ∉ findUsedSizeGuard [1] streamed := by
+  decide
+
 end Rustic.Props.C02
